@@ -433,6 +433,7 @@ def oracle(case, obs):
     stopped_since = True     # stopped and not re-engaged
     entered_last = None      # the state most recently entered by next_state() and not yet called
     offc = False             # the history has left the usage contract K
+    mstopped = True          # done() ran and no regular / must_finish state has run since (the oracle's own view)
     maxclk = -1
     nonneg_durs = all((v["dur"] or 0) >= 0 for v in st.values())
     for opi, (op, (evs, is_exec, cur)) in enumerate(zip(case["hist"], obs)):
@@ -462,7 +463,7 @@ def oracle(case, obs):
         if kind == "aenable":
             latch = True
         if kind == "engage" or (kind == "aiter" and latch):
-            if not prev_exec and not requested:
+            if (not prev_exec or mstopped) and not requested:
                 fresh = ("any", op[1] if kind == "engage" and op[1] is not None else first)
             requested = True
             stopped_since = False
@@ -495,6 +496,7 @@ def oracle(case, obs):
                 has_state = False
                 seen_done = True
                 entered_last = None
+                mstopped = True
             elif e[0] == "call":
                 s, tm, stm, init, eng = e[1], e[2], e[3], e[4], e[5]
                 if (not offc and entered_last is not None and s != default and s != entered_last
@@ -503,6 +505,7 @@ def oracle(case, obs):
                                        "entered is always run once before it can expire)" % (opi, op, entered_last, s)))
                 if s != default:
                     entered_last = None
+                    mstopped = False
                 if not offc and lifecycle and seen_done and s != default:
                     out.append(("C13", "op %d %r: s%d ran after done() in the same on_iteration (the machine cycled)" % (opi, op, s)))
                 if is_iter and not requested and regular(s):
@@ -536,6 +539,8 @@ def oracle(case, obs):
                             out.append(("C04", "op %d %r: restart of s%d with initial_call False" % (opi, op, s)))
                         if isinstance(tm, int) and tm != 0:
                             out.append(("C04", "op %d %r: restart of s%d with tm = %d ticks, expected 0" % (opi, op, s, tm)))
+                            out.append(("C03", "op %d %r: first iteration after engage() on a stopped machine: s%d got tm = %d ticks, "
+                                               "but tm is the time since the machine last started, 0 here" % (opi, op, s, tm)))
                     fresh = None
                 pending[s] = False
                 last[s] = (tm, stm, eng)
